@@ -213,7 +213,13 @@ impl PhoneticSuggestion {
 
             // Auto Correct item.
             if let Some(correct) = self.search_corrected(string.word(), data) {
-                let corrected = self.phonetic.convert(correct);
+                // A user defined entry may already be written in Bengali, which is not
+                // a valid input of the phonetic parser, so use it as it is.
+                let corrected = if correct.is_ascii() {
+                    self.phonetic.convert(correct)
+                } else {
+                    correct.to_owned()
+                };
                 // Treat it as the first priority.
                 suggestions.push(Rank::first_ranked(corrected));
             }
